@@ -8,7 +8,7 @@
    op tokens (fields separated by ':'; NAME/values are hex byte strings, "-" = empty):
      u8|u16|u32:NAME:dec  x8:NAME:dec  x16:NAME:dec  int:NAME:decZ:TEXT  b:NAME:T|F  mac:NAME:HEX
      ips:NAME:HEX|n   ip:NAME:HEX|n:TEXT   s:NAME:HEX  by:NAME:HEX  lab:NAME  err:TEXT
-     sgr:TEXT|n  dur|time:NAME:dec:TEXT  spf:NAME:TEXT  lf  mod:MODULE:MSG
+     sgr:TEXT|n  dur|time|spfi|spff:NAME:dec:TEXT  tz|tzm:NAME:msec:offset:TEXT  spf:NAME:TEXT  lf  mod:MODULE:MSG
      sa:NAME:E,E,..|_   ia:NAME:E,E,..|_ (E = HEX or n)   ba:NAME:HEX
    Spec validation against the Go standard library (observation = plain ASCII):
      sp_dec A N | sp_hex2 A N | sp_hex4 A N | sp_hexnl A N   renderings of A..A+N-1 joined by ','
@@ -72,9 +72,15 @@ Definition parse_op (tok : string) : option op :=
       else if String.eqb k "ip" then
         match bytes_of_tok n, optbytes_of_tok a, bytes_of_tok t with
         | Some n', Some a', Some t' => Some (OIP n' a' t') | _, _, _ => None end
-      else if String.eqb k "dur" || String.eqb k "time" then
+      else if String.eqb k "dur" || String.eqb k "time" || String.eqb k "spfi" || String.eqb k "spff" then
         match bytes_of_tok n, Z_of_dec a, bytes_of_tok t with
         | Some n', Some _, Some t' => Some (OText n' t') | _, _, _ => None end
+      else None
+  | [k; n; a; b; t] =>
+      (* tz / tzm : NAME : unix milliseconds : zone offset seconds : StampMilli text (tzm: the value carries a monotonic reading) *)
+      if String.eqb k "tz" || String.eqb k "tzm" then
+        match bytes_of_tok n, Z_of_dec a, Z_of_dec b, bytes_of_tok t with
+        | Some n', Some _, Some _, Some t' => Some (OText n' t') | _, _, _, _ => None end
       else None
   | [k; n] =>
       if String.eqb k "lab" then option_map OLabel (bytes_of_tok n)
@@ -361,6 +367,7 @@ Definition dispatch (kind : string) (args : list string) : string :=
         if String.eqb k "line" then names line_methods
         else if String.eqb k "logger" then names logger_methods
         else if String.eqb k "fastlog" then names fastlog_impls
+        else if String.eqb k "stdlib" then out3 stdlib_calls "-" "-"
         else if String.eqb k "pool" then
           (* Get/Put sites of the lines pool per function, nested finishing calls included *)
           out3 ("Msg:get=" ++ dec_of_nat MSG_GETS ++ ",put=0;ToString:get=0,put=" ++ dec_of_nat TOSTRING_PUTS
